@@ -1,13 +1,13 @@
-import ClvmModel.Crypto.Ops
+import ClvmModel.Crypto.Dispatch
 import ClvmModel.Proto.Util
 namespace Clvm.Proto
 open Clvm Clvm.Crypto Clvm.Crypto.Ops
 
 /-- `CRYPTO <op> <flags:hex8> <maxcost> <args-tree-hex> <oracle> <mode>`
 
-`oracle`: for g1_map/g2_map the real hash-to-curve output (compressed point), for
-bls_pairing_identity / bls_verify the real verdict (`1`/`0`); `-` when the harness could not
-compute it (arguments do not parse) — the model must then not reach the primitive.
+`oracle` (the real chia_bls hash-to-curve output / pairing verdict, kept on the line for
+diagnosis) is NOT read by the model any more: pairing and hash-to-curve are computed by the
+independent Lean implementations (`Clvm.Crypto.leanPrimitives`).
 `mode` (fresh / warmed validated-points cache) only concerns the implementation side. -/
 def handleCrypto (args : List String) : Option String :=
   match args with
@@ -15,43 +15,19 @@ def handleCrypto (args : List String) : Option String :=
     let flags := natOfBytesBE (← bytesOfHex flagsHex)
     let maxCost ← maxCost.toNat?
     let tree ← Wire.treeOfHex argsHex
-    let missing := oracle == "-"
-    let verdict := oracle == "1"
-    let oracleBytes := (bytesOfHex oracle).getD []
-    let r? : Option Res :=
-      match op with
-      | "sha256" => some (opSha256 flags maxCost tree)
-      | "keccak256" => some (opKeccak256 flags maxCost tree)
-      | "coinid" => some (opCoinid flags maxCost tree)
-      | "point_add" => some (opPointAdd flags maxCost tree)
-      | "pubkey_for_exp" => some (opPubkeyForExp flags maxCost tree)
-      | "g1_subtract" => some (opBlsG1Subtract flags maxCost tree)
-      | "g1_multiply" => some (opBlsG1Multiply flags maxCost tree)
-      | "g1_negate" => some (opBlsG1Negate flags maxCost tree)
-      | "g2_add" => some (opBlsG2Add flags maxCost tree)
-      | "g2_subtract" => some (opBlsG2Subtract flags maxCost tree)
-      | "g2_multiply" => some (opBlsG2Multiply flags maxCost tree)
-      | "g2_negate" => some (opBlsG2Negate flags maxCost tree)
-      | "g1_map" =>
-        let P := ((Bls.g1DecodeUnchecked oracleBytes).getD none)
-        some (opBlsMapToG1 (fun _ _ => P) flags maxCost tree)
-      | "g2_map" =>
-        let P := ((Bls.g2DecodeUnchecked oracleBytes).getD none)
-        some (opBlsMapToG2 (fun _ _ => P) flags maxCost tree)
-      | "bls_pairing_identity" => some (opBlsPairingIdentity (fun _ => verdict) flags maxCost tree)
-      | "bls_verify" => some (opBlsVerify (fun _ _ => verdict) flags maxCost tree)
-      | "secp256k1_verify" => some (opSecp256k1Verify flags maxCost tree)
-      | "secp256r1_verify" => some (opSecp256r1Verify flags maxCost tree)
-      | _ => none
-    let usesOracle := op == "g1_map" || op == "g2_map" || op == "bls_pairing_identity" || op == "bls_verify"
-    match ← r? with
-    | .ok r =>
-      if usesOracle && missing then some "oracle-missing"
-      else some s!"ok {r.cost} {Wire.hexOfTree r.value} {if r.fresh then 1 else 0}"
-    | .error .BLSPairingIdentityFailed =>
-      if missing then some "oracle-missing" else some (fmtErr .BLSPairingIdentityFailed)
-    | .error .BLSVerifyFailed =>
-      if missing then some "oracle-missing" else some (fmtErr .BLSVerifyFailed)
+    let _ := oracle
+    let name := match op with
+      | "sha256" => "op_sha256" | "keccak256" => "op_keccak256" | "coinid" => "op_coinid"
+      | "point_add" => "op_point_add" | "pubkey_for_exp" => "op_pubkey_for_exp"
+      | "g1_subtract" => "op_bls_g1_subtract" | "g1_multiply" => "op_bls_g1_multiply" | "g1_negate" => "op_bls_g1_negate"
+      | "g2_add" => "op_bls_g2_add" | "g2_subtract" => "op_bls_g2_subtract" | "g2_multiply" => "op_bls_g2_multiply"
+      | "g2_negate" => "op_bls_g2_negate" | "g1_map" => "op_bls_map_to_g1" | "g2_map" => "op_bls_map_to_g2"
+      | "bls_pairing_identity" => "op_bls_pairing_identity" | "bls_verify" => "op_bls_verify"
+      | "secp256k1_verify" => "op_secp256k1_verify" | "secp256r1_verify" => "op_secp256r1_verify"
+      | _ => ""
+    let f ← Clvm.Crypto.opByName name
+    match f flags maxCost tree with
+    | .ok r => some s!"ok {r.cost} {Wire.hexOfTree r.value} {if r.fresh then 1 else 0}"
     | .error e => some (fmtErr e)
   | _ => none
 
